@@ -96,3 +96,37 @@ def c03 (p : Proj) (deps dependents : List (Nat × List Nat)) (endpoints : List 
   (fails.filter (fun x => !x.2)).map Prod.fst
 
 end Gwf.Spec
+
+namespace Gwf.Spec
+
+/-- independent acyclicity test (Kahn elimination): repeatedly drop targets all of whose
+    dependencies have been dropped; acyclic iff nothing remains -/
+def kahn (ts : List (Tgt String)) : Nat → List (Tgt String) → Bool
+  | 0, rem => rem.isEmpty
+  | fuel+1, rem =>
+    let free := rem.filter (fun b => rem.all (fun a => !shareFile b a))
+    if free.isEmpty then rem.isEmpty
+    else kahn ts fuel (rem.filter (fun b => !(rem.all (fun a => !shareFile b a))))
+
+def allOuts (ts : List (Tgt String)) : List String := ts.flatMap (·.outs)
+
+def nodupStr : List String → Bool
+  | [] => true
+  | x :: xs => !xs.contains x && nodupStr xs
+
+/-- C04: the observed verdict of graph construction ("ok" | "multi" | "unresolved" | "cycle") -/
+def c04 (p : Proj) (observed : String) : List String :=
+  let ts := p.tgts
+  let nodup := nodupStr (allOuts ts)
+  let sources := ts.all (fun t => t.ins.all (fun q => (allOuts ts).contains q || (p.fsFn q).isSome))
+  let acyclic := kahn ts (ts.length + 1) ts
+  let wellFormed := nodup && sources && acyclic
+  let okIff := (observed == "ok") == wellFormed
+  let kindApplies :=
+    if observed == "multi" then !nodup
+    else if observed == "unresolved" then !sources
+    else if observed == "cycle" then !acyclic
+    else observed == "ok"
+  (if okIff then [] else ["accepts-iff-well-formed"]) ++ (if kindApplies then [] else ["error-kind-applies"])
+
+end Gwf.Spec
